@@ -217,3 +217,6 @@ if "replay_jobs" in globals():
     _rj = replay_jobs
     def replay_jobs(prop, path, exes):
         return _rj(prop, path, exes) if prop in _OWNED else []
+
+XBT = [lns_streams("arith", 1, 1), areal_streams("assign", 1, 1)]
+XBT_HARNESS = ["h_lns_u8", "h_lns_u16", "h_lns_u32", "h_areal_u8", "h_areal_u16", "h_areal_u32"]
